@@ -37,6 +37,7 @@ pub fn check() -> Check {
                Oracle: after every non-Enter byte the handler-invocation count is unchanged; at Enter the handler is invoked exactly once with the reference tokens/classification of the line, or not at all for blank lines and help requests; \
                the line Enter acts on (hook) must at every step equal both the ideal-editor model of the keys typed and what the terminal emulator shows after the prompt (the visible line); \
                afterwards the line is empty and the terminal emulator shows one fresh prompt on a new last row. \
+               Two differential stages on the same session strategies: `hook-free` (a runner over the public API built without verif-hooks, with them, and without debug assertions / overflow checks: identical sink calls, results and handler log) and `api-shapes` (zero-sized / 512-byte / `&mut` sinks, `[u8; N]` / `&mut [u8]` buffers, other builder call orders, Cli::new: identical dispatches). \
                Non-trivial = an Enter on a line with at least one token that was built using a cursor move, backspace, recall, completion or a rejected character; distinct by (line bytes, buffer sizes). Evaluations count every API call (input byte, application write, prompt change) that was followed by the oracle, plus one per session; a coverage-guided campaign (libFuzzer + ASan, 16 processes, same oracle inside the target) searches the same session space and what it keeps is re-run and classified here.",
         assumptions: &[
             "recall and completion replace the model line by the observed one (their content is C10's / C11's business); keys use canonical encodings (terminator and CSI corner cases belong to C04)",
@@ -69,4 +70,6 @@ fn run_shard(ctx: &ShardCtx) {
     fuzzdrv::replay_lock_corpus(ctx, "C01", "dispatch", FLAGS);
     // the same sessions on the library as users build it (no verif-hooks), against the hooked build
     super::hookfree::stage(ctx, ctx.tier.pick(60_000, 1_000_000), opts(ctx.tier), SETS);
+    // other shapes of the API (sink types, `[u8; N]` / `&mut [u8]` buffers, builder call orders, Cli::new): same dispatches
+    super::shapes::stage(ctx, ctx.tier.pick(100_000, 1_500_000), opts(ctx.tier), SETS, vmodel::sinkkinds::Diff::Dispatch);
 }
